@@ -7,7 +7,7 @@ from vf import gen
 
 PID = "C18"
 ANCHORS = ["pyoma2.functions.gen:MAC", "pyoma2.functions.gen:MPC", "pyoma2.functions.gen:MPD", "pyoma2.functions.gen:MCF", "pyoma2.functions.gen:MSF"]
-REQUIRED_MONITORS = ["mixed-dtype MAC", "range@MAC", "range@MPC", "range@MPD", "range@MCF", "shape+symmetry@MAC", "scale-invariance", "collinear-exact",
+REQUIRED_MONITORS = ["arguments-unchanged+auto-MAC", "mixed-dtype MAC", "range@MAC", "range@MPC", "range@MPD", "range@MCF", "shape+symmetry@MAC", "scale-invariance", "collinear-exact",
                      "MSF(v,cv)=c", "contracts-active-during-SSI-run"]
 CLASSES = ["generic", "generic_unit_normalised", "generic_zero_or_real_components", "nearly_collinear_1e-8", "nearly_collinear_1e-3", "collinear", "collinear_unit_normalised", "collinear_zero_components",
            "collinear_halves", "constant", "isotropic_reference", "sets"]
@@ -298,8 +298,16 @@ def run_sets(ctx, rng):
         A[:, 0] = X[:, 0] * cfac(rng)
     if rng.random() < 0.4:
         X = X.real.copy()  # real-dtype set against a complex-dtype set
+    Xk, Ak = X.copy(), A.copy()
     M = call(ctx, "MAC", X, A)
     Mt = call(ctx, "MAC", A, X)
+    ctx.ev("arguments-unchanged+auto-MAC")
+    ctx.check(np.array_equal(X, Xk) and np.array_equal(A, Ak), "MAC:arguments_modified", "MAC changed the arrays it was given")
+    if nx >= 2:
+        Xs = X * (10 ** rng.uniform(-4, 4, nx))[None, :]  # shapes of any length
+        Ms = np.asarray(call(ctx, "MAC", Xs, Xs))  # one and the same object on both sides
+        ctx.check(Ms.shape == (nx, nx) and np.allclose(np.diag(Ms), 1.0, atol=1e-9) and np.allclose(Ms, Ms.T, atol=1e-9), "MAC:auto_mac_of_a_set",
+                  lambda: f"MAC(S, S) of {nx} shapes (same array object): diagonal {np.diag(Ms)}")
     ctx.ev("shape+symmetry@MAC")
     if nx == 1 and na == 1:
         ctx.check(np.ndim(M) == 0 and abs(M - Mt) <= 1e-12, "MAC:symmetry", "MAC(X,A) != MAC(A,X) for single shapes")
